@@ -14,6 +14,7 @@ from .. import layout as L
 from .. import panic as P
 from .. import spec as S
 from ..guard import N, arg, fld, deref, cn
+from . import c05
 
 NUL = ("unsize", ("ref", ("aggr", ("array",), (("c", 0),))), "&[u8]", "&[u8; 1]")
 STRING_TAGS = {"CommandLineTag": ("cmdline", "Cmdline", 1, []), "BootLoaderNameTag": ("name", "BootLoaderName", 1, []),
@@ -90,7 +91,7 @@ def run(ctx):
             sites = [s_ for k in cl for s_ in P.sites_of(F, F.insts[k]) if s_.status != "discharged"]
             ctx.check(not sites, "S4", "%s::%s" % (tyname, acc), "%s::%s() has no reachable panic edge (errors are returned)" % (tyname, acc), ai[0].get("span", ""),
                       how="closure of %d instances, all sites discharged" % len(cl), why=str([s_.key()[:100] for s_ in sites[:3]]))
-    ctx.import_prop("C05")
+    ctx.import_prop("C05", only=c05.only_string_kinds, label="string kinds")
     ctx.import_prop("C16")
     ctx.note("that from_bytes_until_nul stops at the first NUL inside its argument and to_str validates UTF-8 are std contracts")
     return ctx.finish(
